@@ -927,3 +927,68 @@ val balanced_from : token list -> token list -> bool
 val balanced : token list -> bool
 
 val c04_ok : token list -> token list -> token list -> bool
+
+type st1 = { nxt : (nat -> nat); prv : (nat -> nat); hd_ : nat; tl_ : 
+             nat; isnl : (nat -> bool); nlc : (nat -> nat) }
+
+val upd0 : (nat -> 'a1) -> nat -> 'a1 -> nat -> 'a1
+
+val set_nxt : st1 -> nat -> nat -> st1
+
+val set_prv : st1 -> nat -> nat -> st1
+
+val set_hd : st1 -> nat -> st1
+
+val set_tl : st1 -> nat -> st1
+
+val set_isnl : st1 -> nat -> bool -> st1
+
+val set_nlc : st1 -> nat -> nat -> st1
+
+val empty : st1
+
+val remove : st1 -> nat -> st1
+
+val add_after : st1 -> nat -> nat -> st1
+
+val add_before : st1 -> nat -> nat -> st1
+
+val add_tail : st1 -> nat -> st1
+
+val add_head : st1 -> nat -> st1
+
+val swap : st1 -> nat -> nat -> st1
+
+val move_after : st1 -> nat -> nat -> st1
+
+val first_go : nat -> st1 -> nat -> nat -> nat
+
+val first_on_line : nat -> st1 -> nat -> nat
+
+val sl_loop1 : nat -> st1 -> nat -> nat -> st1 * nat
+
+val sl_loop2 : nat -> st1 -> nat -> nat -> st1 * nat
+
+val swap_lines : nat -> st1 -> nat -> nat -> st1
+
+type op =
+| NewAfter of nat * nat * bool * nat
+| NewBefore of nat * nat * bool * nat
+| Delete of nat
+| MoveAfter of nat * nat
+| Swap of nat * nat
+| SwapLines of nat * nat
+
+val fresh : st1 -> nat -> bool -> nat -> st1
+
+val step0 : nat -> st1 -> op -> st1
+
+val run0 : nat -> op list -> st1
+
+val walk : nat -> (nat -> nat) -> nat -> nat list
+
+val to_list : nat -> st1 -> nat list
+
+val to_list_back : nat -> st1 -> nat list
+
+val observe : nat -> st1 -> (nat * nat) list * nat list
